@@ -111,7 +111,7 @@ TARGET_KINDS = ["first_call", "first_resolve", "miss_call", "register",
                 # instead of while it is being adapted
                 "invalidk_first", "invalidk_rebuild",
                 # first use of a plain (non-linkback) copy: building it is also what locks the parent
-                "copy_first_call"]
+                "copy_first_call", "copy2_first_call"]
 
 
 def fixed_family(name, tkind):
@@ -154,9 +154,9 @@ def make_family(spec, regs, corpus, tkind, label, pos=0):
         spec["methods"]["mtop"] = {
             "params": [[p[0], p[1], ["o"], p[3]] for p in proto["params"]],
             "prio": 9, "body": ["leaf"]}
-    if tkind == "copy_first_call":
+    if tkind in ("copy_first_call", "copy2_first_call"):
         fam["target"] = {"op": "call", "c": c0}
-        fam["copy"] = True
+        fam["copy"] = 2 if tkind == "copy2_first_call" else 1  # copy of a copy: two ancestors to lock
     elif tkind == "first_call":
         fam["target"] = {"op": "call", "c": c0}
     elif tkind == "first_resolve":
@@ -245,6 +245,12 @@ def seeded_family(seed, index):
     spec["methods"]["mbadk"] = {"params": kparams, "prio": 0, "body": ["leaf"]}
     n = rng.randint(2, len(mids))
     regs = [[m] for m in rng.sample(mids, n)]
+    if bbody == ["leaf"] and bparams[0][0] == "a1" and not any(
+            len(ps) >= 2 and ps[1][0] == "a1" and ps[1][1] == "pos"
+            for ps in (spec["methods"][r[0]]["params"] for r in regs)):
+        # no registered method declares a1 in second position: the clash would not be one
+        spec["methods"]["mbad"] = {"params": json.loads(json.dumps(params)), "prio": 0,
+                                   "body": ["bad_next"]}
     corpus = gen.gen_corpus(rng, spec, FEAT)
     tkind = rng.choice(TARGET_KINDS)
     pos = rng.randrange(len(regs) + 1)
@@ -301,6 +307,10 @@ def setup(fam):
         h.apply(op)
     if fam.get("copy"):
         c = h.ov.copy()
+        if fam["copy"] == 2:
+            c.rename("p", "p")
+            h.w.funcs["p"] = c
+            c = c.copy()
         c.rename("c", "c")
         h.w.funcs["c"] = c
     if fam.get("child"):
@@ -453,6 +463,11 @@ def execute(scen):
         # holding the same (invalid) method set raises on its first call
         with_off = without(before, offender) + [[offender, None]]
         cfg_ref = ref_outcomes(spec, with_off, corpus, key)
+        if not any(r[0] == "err" and not r[1] and r[2][0] == "config" for r in cfg_ref):
+            # (a shrinking step removed what made the offender invalid: not a scenario of this kind)
+            stats["ill_formed"] = 1
+            return {"violation": None, "digest": sim.digest, "stats": stats, "fired": fired,
+                    "crash_fired": sim.crash_fired, "steps": nsteps}
 
         def is_config(p, i):
             if p[0] != "err" or p[1] or is_dispatch_verdict(p):
@@ -615,7 +630,7 @@ def jobs(tier, seed):
                 if name == "multi" and tk not in ("first_call", "miss_call", "register", "invalid_first",
                                                     "invalidk_rebuild"):
                     continue
-                if name != "chain" and tk in ("first_resolve", "copy_first_call"):
+                if name != "chain" and tk in ("first_resolve", "copy_first_call", "copy2_first_call"):
                     continue
                 for part in range(stride):
                     yield {"kind": "fixed", "name": name, "tkind": tk, "tier": tier,
